@@ -168,8 +168,8 @@ def gen_strs():
 
 class Spec:
     def __init__(self, name, expr, recv, roles=(), helper=None, lit=None, mutates=False, typed_only=False, decl=None,
-                 untyped_helper=None, stmt=False, typings=None, recv_pool=None, decl_args=None, argnames=None):
-        self.decl_args, self.argnames = decl_args, argnames
+                 untyped_helper=None, stmt=False, typings=None, recv_pool=None, decl_args=None, argnames=None, dense=False):
+        self.decl_args, self.argnames, self.dense = decl_args, argnames, dense
         self.name, self.expr, self.recv, self.roles = name, expr, recv, list(roles)
         self.helper, self.untyped_helper = helper, untyped_helper
         self.lit, self.mutates, self.typed_only, self.decl = lit, mutates, typed_only, decl
@@ -419,6 +419,27 @@ SPECS = [
     S('bytes.contains', 'a in x', 'bytes', ['byteval'], helper=None, lit="b'hello world'"),
     S('bytes.eq', 'x == a', 'bytes', ['bytesarg'], helper=r'__Pyx_PyObject_CompareEq_bytes_object|__Pyx_PyBytes_Equals'),
     S('bytes.getitem', 'x[a]', 'bytes', ['smallidx'], helper=None),
+    # ---------------------------------------------------------------- dense start/end grids on a fixed receiver
+    S('str.startswith3-dense', 'x.startswith(a, b, c)', 'str', ['needle', 'nearidx', 'nearidx'], helper=r'__Pyx_PyUnicode_Tailmatch',
+      recv_pool=['hello'], dense=True),
+    S('str.endswith3-dense', 'x.endswith(a, b, c)', 'str', ['needle', 'nearidx', 'nearidx'], helper=r'__Pyx_PyUnicode_Tailmatch',
+      recv_pool=['hello'], dense=True),
+    S('str.find3-dense', 'x.find(a, b, c)', 'str', ['needle1', 'nearidx', 'nearidx'], helper=r'PyUnicode_Find', recv_pool=['hello'], dense=True),
+    S('str.rfind3-dense', 'x.rfind(a, b, c)', 'str', ['needle1', 'nearidx', 'nearidx'], helper=r'PyUnicode_Find', recv_pool=['hello'], dense=True),
+    S('str.count3-dense', 'x.count(a, b, c)', 'str', ['needle1', 'nearidx', 'nearidx'], helper=r'PyUnicode_Count', recv_pool=['hello'], dense=True),
+    S('bytes.startswith3-dense', 'x.startswith(a, b, c)', 'bytes', ['bneedle', 'nearidx', 'nearidx'], helper=r'__Pyx_PyBytes_Tailmatch',
+      recv_pool=['bhello'], dense=True),
+    S('bytes.endswith3-dense', 'x.endswith(a, b, c)', 'bytes', ['bneedle', 'nearidx', 'nearidx'], helper=r'__Pyx_PyBytes_Tailmatch',
+      recv_pool=['bhello'], dense=True),
+    S('bytes.slice-decode-dense', "x[a:b].decode('utf-8')", 'bytes', ['nearidx', 'nearidx'], helper=r'__Pyx_decode_bytes', recv_pool=['bhello'], dense=True),
+    S('bytearray.slice-decode-dense', "x[a:b].decode('ascii')", 'bytearray', ['nearidx', 'nearidx'], helper=r'__Pyx_decode_bytearray',
+      recv_pool=['bahello'], dense=True),
+    S('list.pop1-dense', 'x.pop(a)', 'list', ['nearidx'], helper=r'__Pyx_PyList_PopIndex', recv_pool=['lists6'], mutates=True, dense=True),
+    S('list.insert-dense', 'x.insert(a, b)', 'list', ['nearidx', ["'new'"]], helper=r'PyList_Insert', recv_pool=['lists6'], mutates=True, dense=True),
+    S('str.split2-dense', 'x.split(a, b)', 'str', [["' '", "'l'", "'ll'", "'o'", 'None'], ['-1', '0', '1', '2', '3', '100']], helper=r'PyUnicode_Split',
+      recv_pool=['hello'], dense=True),
+    S('str.replace3-dense', 'x.replace(a, b, c)', 'str', [["'l'", "'ll'", "'o'", "''", "'hello world'"], ["'L'", "''", "'xyz'"], ['-1', '0', '1', '2', '3', '100']],
+      helper=r'PyUnicode_Replace', recv_pool=['hello'], dense=True),
 ]
 
 EXTRA_POOLS = {
@@ -429,8 +450,16 @@ EXTRA_POOLS = {
     'bytesiterable': ["b''", "b'xyz'", "bytearray(b'q')", '[1, 2]', '[256]', "'ab'", 'None', '5', 'gen_list(3)', "memoryview(b'mv')",
                       "[-1]", "['a']", 'IterRaises(1)', '(97, 98)', 'range(3)', 'range(254, 258)'],
 }
+EXTRA_POOLS.update({
+    'nearidx': ['0', '1', '-1', '2', '-2', '4', '5', '-5', '6', '10', '11', '-11', '12', '-12', 'None', '3', '2**63-1', '-2**63'],
+    'needle': ["'h'", "'hello'", "'world'", "'o w'", "'d'", "''", "'hello world'", "'x'", "('zz', 'hello')", "('d', 'w')"],
+    'needle1': ["'l'", "'o'", "'lo'", "''", "'world'", "'hello world'", "'x'"],
+    'bneedle': ["b'h'", "b'hello'", "b'world'", "b'o w'", "b'd'", "b''", "b'hello world'", "b'x'", "(b'zz', b'hello')", "(b'd', b'w')"],
+})
 POOLS.update(EXTRA_POOLS)
 RECV.update({
+    'hello': (["'hello world'"], []), 'bhello': (["b'hello world'"], []), 'bahello': (["bytearray(b'hello world')"], []),
+    'lists6': (['list(range(6))', '[1, 2, 3]', '[]', '[7]'], []),
     'ordstr': (["'a'", "'\\xe9'", "'\\u20ac'", "'\\U0001f600'", "'ab'", "''", "'\\ud800'"], ["S('a')", 'None', "b'a'"]),
     'ordbytes': (["b'a'", "b'\\xff'", "b'ab'", "b''"], ["B(b'a')", 'None', "'a'"]),
     'floatstr': ([v for v in FLOATARG if v.startswith(("'", '"', "' "))], ["S('8.5')", 'None', "b'1'"]),
@@ -527,9 +556,10 @@ def generate(rng, ncases, names=None):
             typings.append(('ctyped', spec.decl, list(good)))
         else:
             typed_name = spec.recv if spec.recv in ('list', 'tuple', 'dict', 'set', 'frozenset', 'str', 'bytes', 'bytearray') else None
-            typings.append(('untyped', 'x', list(good) + list(hostile) + (['None'] if 'None' not in good and typed_name else [])))
+            if not spec.dense:
+                typings.append(('untyped', 'x', list(good) + list(hostile) + (['None'] if 'None' not in good and typed_name else [])))
             if typed_name:
-                typings.append(('typed', '%s x' % typed_name, list(good) + ['None']))
+                typings.append(('typed', '%s x' % typed_name, list(good) + ([] if spec.dense else ['None'])))
             if spec.lit:
                 typings.append(('literal', None, None))
         for tname, xdecl, recvs in typings:
@@ -561,7 +591,7 @@ def generate(rng, ncases, names=None):
                 combos = choose_cases(rng, ['_'], argpools, ncases) if argpools else [('_',)]
                 cases = [('(%s)' % ''.join(a + ', ' for a in c[1:]), (spec.lit,) + tuple(c[1:])) for c in combos]
             else:
-                combos = choose_cases(rng, recvs, argpools, ncases)
+                combos = choose_cases(rng, recvs, argpools, ncases * (5 if spec.dense else 1))
                 cases = [('(%s)' % ''.join(a + ', ' for a in c), tuple(c)) for c in combos]
             helper = spec.helper
             if tname == 'untyped' and typed_name:
